@@ -77,4 +77,33 @@ def run(rep, tier):
     if "!panic" in o2 or n_elems != T * K:
         rep.violations.append({"property": "C16", "lane": "L16",
                                "what": f"appends to a shared array cell lost: {n_elems} of {T * K} elements present", "case": c2})
+    # ONE parsed Code executed again and again, sequentially and by all threads at once: the runs share
+    # no cell (every `mut`, every closure, every iterator is created by the run itself), so each yields
+    # the sequential result
+    progs = [
+        "hits := mut 0; hits += 1; hits += 1; hits += 1; *hits",
+        "total := mut 0; bump := (by: int) -> int { total += by; return *total }; bump(1); bump(10); (bump(100), *total)",
+        "it := [1, 2, 3]~; it(); (it(), [4, 5]~ $])",
+        "c := mut [int] []; for x in [1, 2, 3]~ { c += [x * 2] }; *c",
+        "mk := () -> () -> int { n := mut 0; return () -> int { n += 1; return *n } }; a := mk(); a(); (a(), mk()())",
+        "s := struct{cell := mut 1}; s.cell += 1; t := (mut \"a\", 2); t.0 += \"b\"; (*s.cell, *t.0)",
+        "f := (xs: [any]) -> [int] { return xs~ ? int $] }; (f([1, \"a\", 2]), f([\"b\", 3]))",
+    ]
+    ecases = [f'(exec-threads {T} {max(20, K // 5)} ' + q(p) + ")" for p in progs]
+    eout = common.run_cases(common.HARNESS, ecases, shards=1, timeout=300)
+    rep.evaluations += len(ecases) * T * max(20, K // 5)
+    for c, o in zip(ecases, eout):
+        rep.compared += 1
+        rep.count("L16.exec-threads")
+        if o.startswith(("!timeout", "!died")) or "!panic" in o:
+            rep.violations.append({"property": "C16", "lane": "L16", "what": "executing one parsed program from several threads: " + o[:300], "case": c})
+            continue
+        if o.startswith("reject"):
+            rep.violations.append({"property": "C16", "lane": "L16", "what": "lane program rejected: " + o[:200], "case": c})
+            continue
+        first, others = o.split(" || others ")
+        first = first[len("first "):]
+        if others != first:
+            rep.violations.append({"property": "C16", "lane": "L16", "case": c,
+                                   "what": f"runs of one parsed program that share no cell differ from the first run {first[:120]}: {others[:300]}"})
     rep.sample({"lane": "L16", "case": cases[0], "result": out[0][:300]})
